@@ -3,7 +3,7 @@
 #include "prelude.h"
 #include "oomd/util/Util.h"
 static int g_uuid_serial = 0;
-extern "C" int vf_uuid_serial_of(const char* s) { if (!s || s[0] != 'u') return -1; int v = 0, any = 0; for (const char* p = s + 1; *p; p++) { if (*p < '0' || *p > '9') return -1; v = v * 10 + (*p - '0'); any = 1; } return any ? v : -1; }
+extern "C" int vf_uuid_serial_of(const char* s);
 namespace Oomd {
 std::string Util::generateUuid() { g_uuid_serial++; return std::string("u") + std::to_string(g_uuid_serial); }
 }
